@@ -67,7 +67,10 @@ class E1(Exception):
     pass
 
 
-LEAVES = [1, 0, True, None, 'a', 'xyz', 7, -3, b'ab', E1('boom'), 10 ** 20, (), 'k']
+from fractions import Fraction
+from decimal import Decimal
+# (numbers that are not floats - Fraction, Decimal, complex - are data like any other: never rounded)
+LEAVES = [1, 0, True, None, 'a', 'xyz', 7, -3, b'ab', E1('boom'), 10 ** 20, (), 'k', Fraction(1, 3), Fraction(3, 10), Decimal('2.665'), 1.26 + 0j]
 
 
 def gen_value(r, depth=0):
